@@ -1,13 +1,15 @@
 """C02 — B = mu0*H + J everywhere; J and M report the body's polarization"""
 from corr import kern_family
+from checks import _sym
 from oracles import c02 as oracle
 
-GEN = ["Const", "Tol"]
-LEAN_TARGETS = ["MagpyVerif.Props.C02"]
-PROPS = ["MagpyVerif.Props.C02"]
+GEN = ["Const", "Tol", "CylSegGen"] + _sym.GEN
+LEAN_TARGETS = ["MagpyVerif.Props.C02", "MagpyVerif.Gen.CylSegGen"] + _sym.LEAN_TARGETS  # CylSegGen: the regenerated CylinderSegment translation and its `sync_*` theorems against the frozen model
+PROPS = ["MagpyVerif.Props.C02"] + _sym.PROPS
 
 
 def run(ctx, model_ok):
+    _sym.run(ctx, ctx.scale(140, 4000))
     if ctx.driver_ok:
         st = kern_family.run_stream(ctx, ctx.scale(800, 40000))
         ctx.cov["evaluations"] = st["rows"]
@@ -18,6 +20,11 @@ def run(ctx, model_ok):
         ctx.cov["traces_validated_against_impl"] = st["rows"]
         ctx.cov["samples"] = st.pop("samples")
         ctx.cov["correspondence"] = st
+    from checks import _cylseg
+    cs = _cylseg.run(ctx, ctx.scale(700, 30000))
+    if cs:
+        ctx.cov["evaluations"] = ctx.cov.get("evaluations", 0) + cs["rows"]
+        ctx.cov["traces_validated_against_impl"] = ctx.cov.get("traces_validated_against_impl", 0) + cs["rows"]
     if ctx.driver_ok:
         from corr import trimesh_family
         ctx.cov["correspondence_trimesh"] = trimesh_family.run_stream(ctx, ctx.scale(80, 3000))
@@ -34,7 +41,8 @@ def run(ctx, model_ok):
     ctx.cov["not_shown"] = ["that the masks the wrappers compute are the geometric inside predicate of Cuboid/Cylinder/Segment/TriangularMesh "
                             "(proved for Sphere and for the Cylinder: `cylinder_j_is_indicator`; Tetrahedron: the barycentric test is modelled and shown order-independent, "
                             "J/M and B branches use the same set; Cuboid/Segment by the oracle at stratified observers)",
-                            "CylinderSegment: consistency shown for the wrapper dispatch with the core and the inside mask as parameters (Cylinder, Triangle, Tetrahedron, Circle, "
+                            "CylinderSegment: `cylseg_consistent` covers the whole ported BHJM_cylinder_segment (translated 26-case core, masks, angle normalisation) with ellipkinc/ellipeinc/el3_angle as opaque functions; "
+                            "rows with an unhandled case id (111, 114, 121, 131) are NaN in the code and `none` in the model; the 360-degree branch of the internal wrapper is the Cylinder port (Cylinder, Triangle, Tetrahedron, Circle, "
                             "Sphere, Dipole and TriangularMesh with its ray-casting inside test: shown for the full ported function; `cylinder_is_wrapCylinder` ties the ported "
                             "BHJM_magnet_cylinder to the abstract dispatch). The TriangularMesh inside test is NOT the geometric inside predicate on planes through the ray start "
                             "and a mesh edge: witness trimesh_ray_test_misses_interior_point, replayed by the trimesh-inside stream and recorded as a known finding",
